@@ -40,8 +40,18 @@ def scratch_root():
     return d
 
 
+# Contents and metadata documents are opaque bytes to the store; the default ones carry the bytes that text-mode or
+# string handling would damage: CR, CR LF, a byte sequence that is not UTF-8, NULs, and a last block (4 bytes in the
+# model) that is all NUL.
+C_ONE = b"\r"
+C_MULTI = b"01\r\n\xe9\x00\x00\x00\x00\x00\x00\x00"
+D_ONE = b"<v0>\r"
+D_MULTI = b"<v1>\r\n\xe9\x00\x00\x00\x00\x00\x00"
+D_MULTI15 = b"<v1>\r\n\xe9\x00\x00\x00\x00\x00\x00\x00\x00"
+
+
 class World:
-    def __init__(self, pids, contents, formats=(None,), docs=(b"<v0/>", b"<v1/>12345678"), algorithm="SHA-256",
+    def __init__(self, pids, contents, formats=(None,), docs=(D_ONE, D_MULTI), algorithm="SHA-256",
                  depth=3, width=2, ns="ns", blksize=4, mode="model", fake_cid=True, sym_dirs=True,
                  mutate=None, mp=False, threading_mod=None, multiprocessing_mod=None):
         self.mode = mode
@@ -193,8 +203,10 @@ class World:
         self.ordv = [I("ord_%d" % j) for j in range(self.NC)]
         self.meta = [[I("meta_%d_%d" % (i, f)) for f in range(self.NF)] for i in range(self.NP)]
         self.dirv = {d: B("dir_%d" % n) for n, d in enumerate(sorted(self.chains))}
+        # the environment: does the file system under the store support hard links? (decided when os.link is called)
+        self.linkv = B("fs_hard_links")
         self.statevars = self.bind + self.obj + self.ordv + [m for r in self.meta for m in r] + \
-            [self.dirv[d] for d in sorted(self.dirv)]
+            [self.dirv[d] for d in sorted(self.dirv)] + [self.linkv]
 
     def inv(self, allow_missing_obj=True):
         c = []
@@ -243,6 +255,29 @@ class World:
                     setattr(s, n + suf, [])
         return s
 
+    def real_instances(self, n):
+        """n store instances made by the real constructor on the existing store (once per World), reset in place for
+        every execution: whatever the constructor shares between instances stays shared, nothing else is"""
+        if not hasattr(self, "_real"):
+            saved = self.shim.fs
+            self._real = []
+            for _ in range(n):
+                F = symfs.FS(self.F0.b.clone_concrete(), blksize=self.blksize)
+                F.env = dict(self.F0.env)
+                self.shim.fs = F
+                self._real.append(self.M.FileHashStore(self.props("/s")))
+            self.shim.fs = saved
+        from . import sched
+        for s in self._real:
+            for nm in LOCK_LISTS:
+                for suf in ("_th", "_mp"):
+                    v = getattr(s, nm + suf, None)
+                    if v is not None:
+                        del v[:]
+            s.default_algo_list[:] = self.defaults
+            sched.reset_primitives(s)
+        return self._real[:n]
+
     def members_term(self, j):
         return [self.bind[i] == j for i in range(self.NP)]
 
@@ -287,6 +322,7 @@ class World:
                     ("meta", i, f))
         F = symfs.FS(b, blksize=self.blksize)
         F.env = dict(self.F0.env)
+        F.hardlinks = lambda: ps.decide(self.linkv)
         self.initial = dict(b.files)
         self.initial_dirs = dict(b.dirs)
         self.F = F
@@ -314,6 +350,9 @@ class World:
         self.cleanup()
         self.scratch = scratch_root()
         os.makedirs(self.scratch + "/src")
+        # the model's working directory is "/": relative paths (an identifier may look like one) mean the same files
+        self._cwd0 = os.getcwd()
+        os.chdir(self.scratch)
         for k, c in enumerate(self.contents):
             with open(self.src(k), "wb") as f:
                 f.write(c)
@@ -412,12 +451,16 @@ class World:
         self.history = hist
         F2 = symfs.FS(rb, blksize=self.blksize)     # fresh counters for the call under test
         F2.env = dict(self.F0.env)
+        F2.hardlinks = lambda: ps.decide(self.linkv)
         self.shim.fs = F2
         self.F = F2
         self.initial = {}
         return F2
 
     def cleanup(self):
+        if getattr(self, "_cwd0", None):
+            os.chdir(self._cwd0)
+            self._cwd0 = None
         if self.scratch and os.path.isdir(self.scratch):
             shutil.rmtree(self.scratch, ignore_errors=True)
         self.scratch = None
